@@ -15,13 +15,14 @@ DEPTH = 40
 
 HEADER = """From Coq Require Import List ZArith NArith Bool Arith.
 Import ListNotations.
-From PyccoloV Require Import gen.Events model.Tree model.Erase model.RwFrag model.FragSem model.FragFun proofs.FragFunProofs.
+From PyccoloV Require Import gen.Ids gen.Events model.Tree model.Erase model.RwFrag model.FragSem model.FragFun proofs.FragFunProofs.
 Local Open Scope N_scope.
-Definition encv (v : val) : Z * Z := match v with VInt z => (0, z) | VBool b => (1, if b then 1 else 0) | VNone => (2, 0) | VStr s => (3, Z.of_N s) | VFun _ => (4, 0) end%Z.
+Definition encv (v : val) : Z * Z := match v with VInt z => (0, z) | VBool b => (1, if b then 1 else 0) | VNone => (2, 0) | VStr s => (3, Z.of_N s) | VFun _ | VBuiltin _ => (4, 0) | VRange _ _ => (9, 0) end%Z.
 Definition enco (o : option val) : Z * Z := match o with Some v => encv v | None => (4, 0)%Z end.
 Definition ence (en : entry) := (event_idx (fst (fst en)), snd (fst en), enco (snd en)).
 Definition encx (x : option fexc) : N := match x with None => 0 | Some (FX ENameError) => 1 | Some (FX ETypeError) => 2 | Some (FX EZeroDiv) => 3 | Some FFuel => 8 | Some (FRet _) => 6 end.
 Definition encenv (r : env) (names : list N) := map (fun x => match r x with Some v => encv v | None => (5, 0)%Z end) names.
+Definition env0 : env := fun x => if N.eqb x id_range then Some (VBuiltin 0) else None.      (* the builtins of the fragment *)
 Definition mkpol (rules : list (nat * bool * N)) (log : list entry) (g : N) : bool :=
   fold_left (fun acc rule => let '(k, b, g') := rule in if Nat.leb k (length log) && N.eqb g g' then b else acc) rules true.
 Notation X := (frun Py.binop Py.cmpop Py.unop Py.truth Py.cval Py.is_and).
@@ -30,9 +31,9 @@ Definition one (c : rcfg) (ge : bool) (rules : list (nat * bool * N)) (names : l
   | None => None
   | Some m =>
       let im := finstr_module c ge m in
-      let a := X c (mkpol rules) DEPTHnat im (fun _ => None) VNone in
-      let p := X c (mkpol rules) DEPTHnat m (fun _ => None) VNone in
-      let rf := fref_module Py.binop Py.cmpop Py.unop Py.truth Py.cval Py.is_and c (mkpol rules) ge DEPTHnat m (fun _ => None) in
+      let a := X c (mkpol rules) DEPTHnat im env0 VNone in
+      let p := X c (mkpol rules) DEPTHnat m env0 VNone in
+      let rf := fref_module Py.binop Py.cmpop Py.unop Py.truth Py.cval Py.is_and c (mkpol rules) ge DEPTHnat m env0 in
       Some (tree_eqb (tf_module im) o && forallb fsrc_t m,
             (encx (f_exc a), encenv (f_env a) names, map ence (filter_log c (f_log a))),
             (encx (fr_exc rf), encenv (fr_env rf) names, map ence (filter_log c (fr_log rf))),
@@ -68,6 +69,9 @@ class GFun(rwfrag.GSem):
         return super().expr(d)
 
     def call(self):
+        if self.rng.random() < 0.06:
+            # the builtin of the fragment
+            return self.rng.choice(["range(%s)" % self.expr(2), "range(%s, %s)" % (self.expr(2), self.expr(2)), "range()", "range(True)"])
         if not self.callable and self.rng.random() < 0.9:
             return self.expr(1)
         if not self.callable or self.rng.random() < 0.03:
